@@ -418,7 +418,7 @@ func famAuthority(g *sgen, i int) J {
 	case 1: // Accept of a Follow
 		a = J{"type": "Accept", "id": remote(fmt.Sprintf("/activities/%d", g.r.intn(100)))}
 		store := jmap(w["store"])
-		switch g.r.intn(6) {
+		switch g.r.intn(7) {
 		case 0:
 			delete(store, local("/activities/f1"))
 			if g.r.bool() {
@@ -432,6 +432,9 @@ func famAuthority(g *sgen, i int) J {
 			store[local("/activities/f1")] = J{"type": "Follow", "id": local("/activities/f1"), "actor": alice, "object": carol}
 		case 4:
 			store[local("/activities/f1")] = J{"type": "Follow", "id": local("/activities/f1"), "actor": asList([]interface{}{dave, alice}), "object": asList([]interface{}{carol, bob, remote("/users/bea")})}
+		case 5:
+			// the stored Follow names one object twice (by IRI and embedded): it still covers only that one actor
+			store[local("/activities/f1")] = J{"type": "Follow", "id": local("/activities/f1"), "actor": alice, "object": []interface{}{bob, J{"type": "Person", "id": bob}}}
 		}
 		var objs []interface{}
 		for k, n := 0, 1+g.r.intn(2); k < n; k++ {
@@ -584,6 +587,20 @@ func famGraph(g *sgen, i int) J {
 			pair = []interface{}{inner, outer}
 		}
 		v[g.r.pick([]string{"to", "cc", "bto", "audience"})] = asList(pair)
+	}
+	if g.r.chance(12) {
+		// every addressed actor — the sender among them — has an application-stored inbox: nothing to dereference
+		var xs []interface{}
+		for _, id := range actors {
+			inboxFor[id] = id + "/stored-inbox"
+			xs = append(xs, id)
+		}
+		inboxFor[alice] = aliceInbox
+		xs = append(xs, alice)
+		for _, p := range []string{"to", "cc", "bto", "bcc", "audience"} {
+			delete(v, p)
+		}
+		v[g.r.pick([]string{"to", "cc", "bto"})] = asList(xs)
 	}
 	if g.r.bool() {
 		st := J{"entry": "send", "host": hostA, "path": "/users/alice/outbox", "value": v}
